@@ -13,6 +13,12 @@ return phi on every cell (so `sign(s) * acos(c)`, which gives 0 at phi = pi, is 
 The inter-stem torsion is evaluated on stub stems (rule interstem-points: neighbour, end, end, neighbour about the closest
 pair of stem ends) and tertiary_v2's find_atom / Atom.coordinates on stub frames over call histories (rule
 lookup-current-state: a lookup after a change of the coordinates sees the change).
+
+Round 5: the algebra reads bond vectors built by zip / comprehensions, module-level helpers with guard clauses
+(`_normalized(v)`), two-way assignment blocks and any() / all() guards; the clip is decided as a fact (the clipped quantity
+is k * cos(phi) with k a monomial in bond lengths and sines of bond angles whose supremum over the property's domain must
+not exceed 1 - a common scale |b2| for all three bonds gives k up to 9.77); rule borrowed-array-write (sa/alias.py): no
+in-place numpy operation on a name that aliases an array kept by an atom (`acc = atoms[0].coordinates; acc += ...`).
 """
 from __future__ import annotations
 
@@ -345,7 +351,10 @@ def run(chk) -> None:
         "table; the inter-stem torsion on stub stems (which pair of stem ends is closest x stem lengths: the four points are neighbour, end, end, neighbour; radians scored, degrees reported); "
         "tertiary_v2.Residue.find_atom / Atom.coordinates on stub frames (what was looked up before x in-place change of the coordinates / replaced frame: a lookup answers from the current frame); "
         "cis/trans and BPh splits as before. A torsion function that is not one plain atan2 is evaluated symbolically on the eight cells of the circle (acos / asin / atan2 / sign / copysign / "
-        "conditionals over the sine and cosine terms) and must return phi on every cell, phi = 0 and phi = pi included."
+        "conditionals over the sine and cosine terms) and must return phi on every cell, phi = 0 and phi = pi included. "
+        "A clip of an atan2 argument is decided as a bound: the clipped quantity is k * cos(phi) with k a monomial in the bond lengths and the sines of the bond angles, and sup k over the domain "
+        "(0.8-2.5 A, 20-160 degrees) must be <= 1. In-place numpy operations (+=, [..] =, out=, fill ...) on names that alias an array kept per object (cached_property / field) or an array parameter of a torsion "
+        "function are found package-wide by an origin analysis (sa/alias.py)."
     )
     chk.trusted = ["CPython ast", "numpy cross/dot/norm/arctan2 semantics", "IUPAC-IUB torsion table (spec/iupac_torsions.json)"]
     chk.assumptions = [
